@@ -337,6 +337,9 @@ pub enum DataChange {
     ClearImage,
     /// toggle admin-ness of member (selector), never demoting the last admin
     ToggleAdmin(u16),
+    /// relay lists in unusual spellings (trailing slash, port and path, upper-case host, ws
+    /// scheme, two spellings of one relay, a blank in the path)
+    RelayShapes(u8),
     /// only some of the image fields (bit 0 hash, 1 key, 2 nonce, 3 upload key), the others stay
     ImagePart(u8, u8),
 }
@@ -1342,6 +1345,22 @@ impl World {
                             v.push(relay_url(n.wrapping_add(1)));
                         }
                         what = format!("relays-{n}");
+                        upd.relays = Some(v);
+                    }
+                    DataChange::RelayShapes(n) => {
+                        let texts: Vec<&str> = match n % 6 {
+                            0 => vec!["wss://relay7.example.com/"],
+                            1 => vec!["wss://relay7.example.com:4848/path/x"],
+                            2 => vec!["wss://RELAY8.Example.COM"],
+                            3 => vec!["ws://relay9.example.com"],
+                            4 => vec!["wss://relay7.example.com", "wss://relay7.example.com/"],
+                            _ => vec!["wss://relay7.example.com/a b", "wss://relay6.example.com"],
+                        };
+                        let v: Vec<RelayUrl> = texts.iter().filter_map(|t| RelayUrl::parse(t).ok()).collect();
+                        if v.is_empty() {
+                            return Ok(());
+                        }
+                        what = format!("relay-shapes-{}", n % 6);
                         upd.relays = Some(v);
                     }
                     DataChange::RotateId(n) => {
